@@ -20,6 +20,8 @@ pub fn run_case(ctx: &mut CaseCtx) -> CaseResult {
         return try_from_case(ctx);
     }
     let rng = &mut ctx.rng;
+    // equivalent builder call sequences (see flw::set_build_variant)
+    flw::set_build_variant(rng.below(8) as u8);
     let rotation = !rng.chance(1, 6);
     let naming = if rotation {
         flw::gen_naming(rng, true)
